@@ -259,6 +259,8 @@ def gen_history(rnd, n_conns=None, n_events=40, known_bias=0.8, chatter=0.1, dia
     t_us = rnd.randrange(0, 10 ** 9) * 1000 + rnd.randrange(1000)
     items = []
     known = sorted(proto.keys())
+    burst = rnd.choice([0, 0, 3, 6, 10, 15])       # a start-up burst logged within one clock tick (relative time 0.0)
+    n_msgs = 0
     for _ in range(n_events):
         if rnd.random() < chatter:
             items.append(('text', rnd.choice(['', 'hello from the program', '  indented chatter  ', 'error: something [1.0] happened',
@@ -266,7 +268,9 @@ def gen_history(rnd, n_conns=None, n_events=40, known_bias=0.8, chatter=0.1, dia
                                                '[1234.567] discarded wl_pointer@3.motion(1)', '[ 12.5] wl_foo@3', 'wl_a@1.b()'])))
             continue
         c = rnd.choice(conns)
-        t_us += rnd.choice([0, 1, 13, 250, 999, 1000, 16667, 999999, 1000000, 1000001, 1001000, 2500000, rnd.randrange(0, 3000000)])
+        if n_msgs >= burst:
+            t_us += rnd.choice([0, 0, 1, 13, 250, 999, 1000, 16667, 999999, 1000000, 1000001, 1001000, 2500000, rnd.randrange(0, 3000000)])
+        n_msgs += 1
         queue = rnd.choice(['Default Queue', 'Display Queue', 'mesa egl display queue']) if d['queue'] else None
         m = None
         if not c.started:
